@@ -9,9 +9,11 @@ package fluentenum
 import (
 	"context"
 	"fmt"
+	"io"
 	"strings"
 	"sync"
 	"testing"
+	"time"
 
 	"github.com/openconfig/gribigo/client"
 	"github.com/openconfig/gribigo/fluent"
@@ -282,6 +284,43 @@ func (nullStub) Flush(context.Context, *spb.FlushRequest, ...grpc.CallOption) (*
 	return nil, fmt.Errorf("not connected")
 }
 
+// recStub records what reaches the wire: every ModifyRequest the client's sender writes to the Modify stream, as
+// serialised at that moment. The stream never answers; it ends when the client half-closes it.
+type recStub struct {
+	nullStub
+	mu   sync.Mutex
+	reqs []*spb.ModifyRequest
+}
+
+type recStream struct {
+	grpc.ClientStream
+	s    *recStub
+	done chan struct{}
+	once sync.Once
+}
+
+func (r *recStub) Modify(context.Context, ...grpc.CallOption) (grpc.BidiStreamingClient[spb.ModifyRequest, spb.ModifyResponse], error) {
+	return &recStream{s: r, done: make(chan struct{})}, nil
+}
+func (st *recStream) Send(m *spb.ModifyRequest) error {
+	st.s.mu.Lock()
+	st.s.reqs = append(st.s.reqs, proto.Clone(m).(*spb.ModifyRequest))
+	st.s.mu.Unlock()
+	return nil
+}
+func (st *recStream) Recv() (*spb.ModifyResponse, error) { <-st.done; return nil, io.EOF }
+func (st *recStream) CloseSend() error                   { st.once.Do(func() { close(st.done) }); return nil }
+func (st *recStream) Context() context.Context           { return context.Background() }
+func (r *recStub) ops() []*spb.AFTOperation {
+	r.mu.Lock()
+	defer r.mu.Unlock()
+	var out []*spb.AFTOperation
+	for _, m := range r.reqs {
+		out = append(out, m.GetOperation()...)
+	}
+	return out
+}
+
 type tb struct {
 	testing.TB
 	msg string
@@ -393,10 +432,11 @@ func runClientProgram[M modifier[M]](elected bool, mode int, prog []int, mk func
 	}()
 	c := fluent.NewClient()
 	initial := &spb.Uint128{Low: 10}
+	rec := &recStub{}
 	if elected {
-		c.Connection().WithStub(nullStub{}).WithRedundancyMode(fluent.ElectedPrimaryClient).WithInitialElectionID(10, 0).WithPersistence()
+		c.Connection().WithStub(rec).WithRedundancyMode(fluent.ElectedPrimaryClient).WithInitialElectionID(10, 0).WithPersistence()
 	} else {
-		c.Connection().WithStub(nullStub{}).WithRedundancyMode(fluent.AllPrimaryClients)
+		c.Connection().WithStub(rec).WithRedundancyMode(fluent.AllPrimaryClients)
 	}
 	c.Start(context.Background(), t)
 	cur := initial
@@ -438,6 +478,29 @@ func runClientProgram[M modifier[M]](elected bool, mode int, prog []int, mk func
 		for k := range frozen {
 			if det(got[k]) != frozen[k] {
 				fs = append(fs, fail{"C18/queued-operation-altered-by-later-call/after-" + strings.SplitN(steps[i].name, "(", 2)[0], fmt.Sprintf("%v: operation %d was changed by step %d (%s): now {%s}", names, k+1, si+1, steps[i].name, ribx.Text(got[k]))})
+				return fs
+			}
+		}
+	}
+	// what reaches the wire: the requests were queued while the client was not sending; StartSending flushes them to
+	// the stream, where every operation must arrive as it was when it was queued
+	if len(want) > 0 {
+		c.StartSending(context.Background(), t)
+		var sent []*spb.AFTOperation
+		for i := 0; i < 60000; i++ { // (a safety net: the flush takes microseconds)
+			if sent = rec.ops(); len(sent) >= len(want) {
+				break
+			}
+			time.Sleep(time.Millisecond)
+		}
+		c.Stop(t)
+		if len(sent) != len(want) {
+			fs = append(fs, fail{"C18/operations-on-the-wire-count", fmt.Sprintf("%v: %d operations were queued, %d reached the Modify stream", names, len(want), len(sent))})
+			return fs
+		}
+		for k := range sent {
+			if det(sent[k]) != frozen[k] {
+				fs = append(fs, fail{"C18/operation-on-the-wire-differs-from-the-one-queued", fmt.Sprintf("%v: operation %d reached the stream as {%s}, which is not what was queued", names, k+1, ribx.Text(sent[k]))})
 				return fs
 			}
 		}
